@@ -173,7 +173,11 @@ func (o *oracles) finalC11(final snap) {
 		} else if lexLess([2]uint64{s.sm.h, uint64(s.sm.r)}, [2]uint64{final.voting.Height, uint64(final.voting.Round)}) {
 			// The mirror left the state machine's round: the state machine must have been given what it needs to leave it too.
 			if !(s.sm.sawCommit || s.sm.sawNilAdv || s.sm.sawJump) {
-				o.violate("C11", "state-machine-left-behind", fmt.Sprintf("the mirror is at %d/%d (committing %d/%d); the state machine is still in %d/%d and never received the votes that ended its round, a jump-ahead or the commit",
+				rel := "behind-the-mirror"
+				if s.sm.h == final.committing.Height && s.sm.r > final.committing.Round {
+					rel = "in-a-later-round-of-the-committed-height"
+				}
+				o.violate("C11", "state-machine-left-behind:"+rel, fmt.Sprintf("the mirror is at %d/%d (committing %d/%d); the state machine is still in %d/%d and never received the votes that ended its round, a jump-ahead or the commit",
 					final.voting.Height, final.voting.Round, final.committing.Height, final.committing.Round, s.sm.h, s.sm.r))
 			}
 		}
